@@ -28,12 +28,17 @@ Definition alg_compat (alg kty : Z) : bool :=
   else if alg =? 4 then kty =? 1
   else false.                               (* none: key must be UnsafeAllowNoneSignatureType; unknown alg *)
 Record jkey := { k_kty : Z; k_alg : Z (* declared "alg" of the JWK, 0 = not declared *); k_sig_ok : bool }.
-Record claims := { c_exp : option Z; c_iat : option Z; c_nbf : option Z }.
-(* MapClaims.Valid with numeric non-zero claims: now <= exp, now >= iat, now >= nbf (absent = fine) *)
+(* a time claim as jwt-go's MapClaims sees it after JSON decoding: absent, a JSON number, or any other JSON type *)
+Inductive claim := CAbsent | CNum (v : Z) | CBad.
+Record claims := { c_exp : claim; c_iat : claim; c_nbf : claim }.
+(* MapClaims.Valid (jwt-go v3.2.0): VerifyExpiresAt/IssuedAt/NotBefore with required=false.
+   A claim that is not a number is ignored, and so is the number 0 (verifyExp: "if exp == 0 return !required"). *)
+Definition exp_ok (c : claim) (now : Z) : bool :=
+  match c with CNum e => if e =? 0 then true else now <=? e | _ => true end.
+Definition from_ok (c : claim) (now : Z) : bool :=          (* iat and nbf *)
+  match c with CNum i => if i =? 0 then true else i <=? now | _ => true end.
 Definition claims_ok (c : claims) (now : Z) : bool :=
-  match c_exp c with Some e => now <=? e | None => true end
-  && match c_iat c with Some i => i <=? now | None => true end
-  && match c_nbf c with Some n => n <=? now | None => true end.
+  exp_ok (c_exp c) now && from_ok (c_iat c) now && from_ok (c_nbf c) now.
 (* keyProvider.provideKey (after /repo commit dccedcf): a key that declares its algorithm is only offered to tokens
    using that algorithm; an undeclared algorithm (0) leaves the choice to jwt-go's key-type check *)
 Definition key_alg_ok (k : jkey) (alg : Z) : bool := (k_alg k =? 0) || (k_alg k =? alg).
